@@ -27,7 +27,9 @@ MANIFEST = {
             'bounds mention its own loop variable. Loop variables are printed and compared with an '
             'independent interpreter (relative tolerance 1e-9). Sampled.'
             ' A fifth of the populations have group and location names th'
-            'at differ only by a blank at either end.',
+            'at differ only by a blank at either end.'
+            ' One population in twenty has 10-21 lights, groups and locat'
+            'ions whose names end in numbers of different lengths.',
     'note': 'Trusted: reference interpreter; iteration order = sorted names '
             'within each listed source, sources in the order written; a light '
             'mentioned by two sources is visited once per mention.',
